@@ -4,6 +4,12 @@ use std::{any::Any, collections::HashMap};
 pub(crate) struct Set {
     /// Registered statics.
     statics: Option<HashMap<StaticKeyId, StaticValue>>,
+
+    /// The keys of `statics` in the order in which they were initialized. The
+    /// values are dropped in this order: the iteration order of the map
+    /// differs from process to process, and a destructor may perform loom
+    /// operations, which have to be the same every time the model runs.
+    order: Vec<StaticKeyId>,
 }
 
 #[derive(Eq, PartialEq, Hash, Copy, Clone)]
@@ -19,6 +25,7 @@ impl Set {
     pub(crate) fn new() -> Set {
         Set {
             statics: Some(HashMap::new()),
+            order: Vec::new(),
         }
     }
 
@@ -28,12 +35,20 @@ impl Set {
             "lazy_static was not dropped during execution"
         );
         self.statics = Some(HashMap::new());
+        self.order.clear();
     }
 
-    pub(crate) fn drop(&mut self) -> HashMap<StaticKeyId, StaticValue> {
-        self.statics
+    /// Returns the values, in the order in which they were initialized
+    pub(crate) fn drop(&mut self) -> Vec<StaticValue> {
+        let mut statics = self
+            .statics
             .take()
-            .expect("lazy_statics were dropped twice in one execution")
+            .expect("lazy_statics were dropped twice in one execution");
+
+        self.order
+            .drain(..)
+            .filter_map(|key| statics.remove(&key))
+            .collect()
     }
 
     pub(crate) fn get_static<T: 'static>(
@@ -60,6 +75,8 @@ impl Set {
         if let std::collections::hash_map::Entry::Occupied(_) = v {
             unreachable!("told to init static, but it was already init'd");
         }
+
+        self.order.push(StaticKeyId::new(key));
 
         v.or_insert(value)
     }
